@@ -22,10 +22,16 @@ From Coq Require Import List NArith Bool Arith.
 Import ListNotations.
 
 Definition path := N.
-Record row := mkRow { r_key : N; r_val : N }.
-(* f_meta: carries arc:tags / arc:dedup_time; f_comp: name ends in _compacted.parquet;
-   f_size: byte size; f_ok: a complete, readable Parquet file *)
-Record file := mkFile { f_rows : list row; f_meta : bool; f_comp : bool; f_size : N; f_ok : bool }.
+(* r_key: the full dedup key (every tag column of the measurement, timestamp);
+   r_ckey: the key a job uses when the only tag metadata among its inputs names just PART of
+   the tag columns (rows differing only in a missing tag share it); r_val: the rest of the row *)
+Record row := mkRow { r_key : N; r_ckey : N; r_val : N }.
+(* f_meta: carries arc:tags naming every tag column (or arc:dedup_time); f_part: carries arc:tags
+   naming only part of the tag columns; f_comp: name ends in _compacted.parquet; f_size: byte
+   size; f_ok: a complete, readable Parquet file *)
+Record file := mkFile { f_rows : list row; f_meta : bool; f_part : bool; f_comp : bool; f_size : N; f_ok : bool }.
+(* what buildCompactionQuery does: no dedup | dedup on the partial key | dedup on the full key *)
+Inductive dmode := DNone | DPart | DFull.
 Record manifest := mkMan { m_out : path; m_size : N; m_inputs : list path }.
 Record state := mkState { files : list (path * file); mans : list (path * manifest) }.
 
@@ -75,6 +81,13 @@ Definition rows_in (l : list (path * file)) (p : path) : list row :=
   match lookup p l with Some f => f_rows f | None => [] end.
 Definition meta_in (l : list (path * file)) (p : path) : bool :=
   match lookup p l with Some f => f_meta f | None => false end.
+Definition part_in (l : list (path * file)) (p : path) : bool :=
+  match lookup p l with Some f => f_part f | None => false end.
+(* readTagColumnsFromParquetFiles: the UNION of the inputs' arc:tags; the compacted outputs
+   carry no metadata at all *)
+Definition job_mode (l : list (path * file)) (pres : list path) : dmode :=
+  if existsb (meta_in l) pres then DFull else if existsb (part_in l) pres then DPart else DNone.
+Definition mode_of_bool (b : bool) : dmode := if b then DFull else DNone.
 (* an input a job can use: it exists (downloadFiles skips vanished files) and passes
    validateParquetFile (compactFiles skips corrupt / truncated files and leaves them alone) *)
 Definition has_file (l : list (path * file)) (p : path) : bool :=
@@ -91,7 +104,7 @@ Definition fresh_man (s : state) : path := N.succ (maxN (keys (mans s))).
 
 Definition size_of (rows : list row) : N := N.succ (N.of_nat (length rows)).
 (* an interrupted non-atomic upload: a truncated object, never of the full size *)
-Definition torn_file : file := mkFile [] false true 0%N false.
+Definition torn_file : file := mkFile [] false false true 0%N false.
 
 Inductive phase := PhManifest | PhUpload | PhDeleteInputs | PhDeleteManifest.
 Definition code_order : list phase := [PhManifest; PhUpload; PhDeleteInputs; PhDeleteManifest].
@@ -108,8 +121,8 @@ Inductive jres := JOk | JRecoverable | JPermanent | JStop.
 Inductive res := ROk | RErr | RStop.
 
 Section Compaction.
-  (* DuckDB COPY of buildCompactionQuery: dedup on (tags,time) iff the flag is set *)
-  Variable compact : bool -> list row -> list row.
+  (* DuckDB COPY of buildCompactionQuery *)
+  Variable compact : dmode -> list row -> list row.
   Variable ord : list phase.
   Variable pr : params.
 
@@ -117,8 +130,8 @@ Section Compaction.
   Definition present (s : state) (ins : list path) : list path := filter (has_file (files s)) ins.
 
   Definition job_output (s : state) (pres : list path) : file :=
-    let rows := compact (existsb (meta_in (files s)) pres) (flat_map (rows_in (files s)) pres) in
-    mkFile rows false true (size_of rows) true.
+    let rows := compact (job_mode (files s) pres) (flat_map (rows_in (files s)) pres) in
+    mkFile rows false false true (size_of rows) true.
 
   Definition phase_steps (out mp : path) (outf : file) (pres : list path) (ph : phase) : list step :=
     match ph with
@@ -253,7 +266,8 @@ Section Compaction.
 End Compaction.
 
 (* ---- executable spec: "same rows, modulo dedup" ---- *)
-Definition row_eqb (a b : row) : bool := N.eqb (r_key a) (r_key b) && N.eqb (r_val a) (r_val b).
+Definition row_eqb (a b : row) : bool :=
+  N.eqb (r_key a) (r_key b) && N.eqb (r_ckey a) (r_ckey b) && N.eqb (r_val a) (r_val b).
 
 Fixpoint remove_one (r : row) (l : list row) : option (list row) :=
   match l with
@@ -278,15 +292,17 @@ Definition relb (b : bool) (l1 l2 : list row) : bool :=
   else submset l2 l1 && (length l1 =? length l2).
 
 (* reference dedup used to run the model: keep the first row of every key *)
-Fixpoint dedup_first (seen : list N) (l : list row) : list row :=
+Fixpoint dedup_first (key : row -> N) (seen : list N) (l : list row) : list row :=
   match l with
   | [] => []
-  | r :: t => if memb (r_key r) seen then dedup_first seen t
-              else r :: dedup_first (r_key r :: seen) t
+  | r :: t => if memb (key r) seen then dedup_first key seen t
+              else r :: dedup_first key (key r :: seen) t
   end.
-Definition dedup_ref (b : bool) (l : list row) : list row := if b then dedup_first [] l else l.
+Definition dedup_ref (m : dmode) (l : list row) : list row :=
+  match m with DNone => l | DPart => dedup_first r_ckey [] l | DFull => dedup_first r_key [] l end.
 
 Definition any_meta (l : list (path * file)) : bool := existsb (fun kv => f_meta (snd kv)) l.
+Definition any_part (l : list (path * file)) : bool := existsb (fun kv => f_part (snd kv)) l.
 Definition all_ok (l : list (path * file)) : bool := forallb (fun kv => f_ok (snd kv)) l.
 
 (* ---- correspondence cases ---- *)
@@ -297,14 +313,14 @@ Fixpoint ins_sorted (x : N) (l : list N) : list N :=
   end.
 Definition sortN (l : list N) : list N := fold_right ins_sorted [] l.
 
-Record cfile := mkCFile { cf_rows : list row; cf_meta : bool; cf_comp : bool; cf_ok : bool }.
+Record cfile := mkCFile { cf_rows : list row; cf_meta : bool; cf_part : bool; cf_comp : bool; cf_ok : bool }.
 Record ccycle := mkCCycle { cc_elig : bool; cc_ocs : list outcome; cc_files : list cfile; cc_mans : nat }.
 Record ccase := mkCCase { c_params : params; c_cfg : config; c_files : list cfile; c_cycles : list ccycle }.
 
 Fixpoint number_files (n : N) (l : list cfile) : list (path * file) :=
   match l with
   | [] => []
-  | c :: r => (n, mkFile (cf_rows c) (cf_meta c) (cf_comp c) (size_of (cf_rows c)) (cf_ok c)) :: number_files (N.succ n) r
+  | c :: r => (n, mkFile (cf_rows c) (cf_meta c) (cf_part c) (cf_comp c) (size_of (cf_rows c)) (cf_ok c)) :: number_files (N.succ n) r
   end.
 Definition case_init (c : ccase) : state := mkState (number_files 1%N (c_files c)) [].
 
@@ -315,11 +331,12 @@ Definition list_eqb {A} (e : A -> A -> bool) : list A -> list A -> bool :=
                 | _, _ => false
                 end.
 
-(* observable of a file: its sorted dedup keys and flags (DuckDB may keep any row of a key) *)
+(* observable of a file: its sorted (partial) dedup keys and flags - DuckDB may keep any row of a key,
+   and rows dropped by a full-key dedup share their partial key too *)
 Definition canon_file (f : file) : list N * (bool * bool * bool) :=
-  (sortN (map r_key (f_rows f)), (f_meta f, f_comp f, f_ok f)).
+  (sortN (map r_ckey (f_rows f)), (f_meta f || f_part f, f_comp f, f_ok f)).
 Definition canon_cfile (f : cfile) : list N * (bool * bool * bool) :=
-  (sortN (map r_key (cf_rows f)), (cf_meta f, cf_comp f, cf_ok f)).
+  (sortN (map r_ckey (cf_rows f)), (cf_meta f || cf_part f, cf_comp f, cf_ok f)).
 Definition canon_eqb (a b : list N * (bool * bool * bool)) : bool :=
   list_eqb N.eqb (fst a) (fst b) &&
   (let '(m1, c1, o1) := snd a in let '(m2, c2, o2) := snd b in Bool.eqb m1 m2 && Bool.eqb c1 c2 && Bool.eqb o1 o2).
